@@ -68,7 +68,14 @@ func randomComposed(r *rand.Rand) []string {
 	case 1:
 		return []string{"profile:WhatWgSortQuery"}
 	}
-	return composedConfig(r.IntN(96))
+	cfg := composedConfig(r.IntN(96))
+	if r.IntN(3) == 0 {
+		cfg = append(cfg, "numeric") // documented numeric sort modes
+	}
+	if r.IntN(3) == 0 {
+		cfg = append(cfg, "shuffled") // options in another order
+	}
+	return cfg
 }
 
 func (m c17) Run(ctx *core.Ctx) {
